@@ -88,6 +88,36 @@ theorem poisson_result_neumann
 theorem poisson_format : Gen.PoissonSys.fmtA = "csc" := by decide
 
 
+
+/-- **End-to-end statement about the traced code** (no hand-written model in between): if the vector `(x0, x1)` handed back by the
+    sparse solver solves the system the code handed to it, then the vector the code returns takes the prescribed values at the
+    Dirichlet vertices `2, 0` (in the caller's order) and satisfies `(A x)_i = (B (h − n))_i` at the free vertices `1, 3`, where
+    `n` has the Neumann values `n1` at vertex 2 and `n0` at vertex 3. -/
+theorem poisson_traced_spec
+    (a00 a01 a02 a03 a10 a11 a12 a13 a20 a21 a22 a23 a30 a31 a32 a33 b00 b01 b02 b03 b10 b11 b12 b13 b20 b21 b22 b23 b30 b31 b32 b33 h0 h1 h2 h3 d0 d1 n0 n1 x0 x1 x2 x3 : ℝ)
+    (hs0 : a11 * x0 + a13 * x1 = Gen.PoissonSys.sysB_0 a00 a01 a02 a03 a10 a11 a12 a13 a20 a21 a22 a23 a30 a31 a32 a33 b00 b01 b02 b03 b10 b11 b12 b13 b20 b21 b22 b23 b30 b31 b32 b33 h0 h1 h2 h3 d0 d1 n0 n1 x0 x1 x2 x3)
+    (hs1 : a31 * x0 + a33 * x1 = Gen.PoissonSys.sysB_1 a00 a01 a02 a03 a10 a11 a12 a13 a20 a21 a22 a23 a30 a31 a32 a33 b00 b01 b02 b03 b10 b11 b12 b13 b20 b21 b22 b23 b30 b31 b32 b33 h0 h1 h2 h3 d0 d1 n0 n1 x0 x1 x2 x3) :
+    ∃ r0 r1 r2 r3 : ℝ,
+      Gen.PoissonSys.result a00 a01 a02 a03 a10 a11 a12 a13 a20 a21 a22 a23 a30 a31 a32 a33 b00 b01 b02 b03 b10 b11 b12 b13 b20 b21 b22 b23 b30 b31 b32 b33 h0 h1 h2 h3 d0 d1 n0 n1 x0 x1 x2 x3
+        = [r0, r1, r2, r3] ∧
+      r2 = d0 ∧ r0 = d1 ∧
+      a10 * r0 + a11 * r1 + a12 * r2 + a13 * r3 = b10 * h0 + b11 * h1 + b12 * (h2 - n1) + b13 * (h3 - n0) ∧
+      a30 * r0 + a31 * r1 + a32 * r2 + a33 * r3 = b30 * h0 + b31 * h1 + b32 * (h2 - n1) + b33 * (h3 - n0) := by
+  refine ⟨d1, x0, d0, x1, ?_, rfl, rfl, ?_, ?_⟩
+  · simp only [Gen.PoissonSys.result, Gen.PoissonSys.result_0, Gen.PoissonSys.result_1, Gen.PoissonSys.result_2, Gen.PoissonSys.result_3]
+  · simp only [Gen.PoissonSys.sysB_0] at hs0
+    linarith
+  · simp only [Gen.PoissonSys.sysB_1] at hs1
+    linarith
+
+/-- the matrix handed to the solver is the block of `A` on the free vertices `1, 3` -/
+theorem poisson_traced_matrix
+    (a00 a01 a02 a03 a10 a11 a12 a13 a20 a21 a22 a23 a30 a31 a32 a33 b00 b01 b02 b03 b10 b11 b12 b13 b20 b21 b22 b23 b30 b31 b32 b33 h0 h1 h2 h3 d0 d1 n0 n1 x0 x1 x2 x3 : ℝ) :
+    Gen.PoissonSys.sysA a00 a01 a02 a03 a10 a11 a12 a13 a20 a21 a22 a23 a30 a31 a32 a33 b00 b01 b02 b03 b10 b11 b12 b13 b20 b21 b22 b23 b30 b31 b32 b33 h0 h1 h2 h3 d0 d1 n0 n1 x0 x1 x2 x3
+      = [((0, 0), a11), ((0, 1), a13), ((1, 0), a31), ((1, 1), a33)] := by
+  simp only [Gen.PoissonSys.sysA, Gen.PoissonSys.sysA_0, Gen.PoissonSys.sysA_1, Gen.PoissonSys.sysA_2, Gen.PoissonSys.sysA_3]
+
+
 /-! ### census of data-dependent decisions: the traced code took exactly the branches the model knows about -/
 theorem census_PoissonSys_pcCount : Gen.PoissonSys.pcCount = 0 := rfl
 
